@@ -108,6 +108,10 @@ def ensure(cfg="default"):
     key = "%s-%s-%s" % (cfg, tree_hash(), driver_hash())
     d = os.path.join(CACHE, "facts", key)
     if os.path.exists(os.path.join(d, ".complete")):
+        try:
+            os.utime(d)
+        except OSError:
+            pass
         return d
     with open(os.path.join(CACHE, "extract-%s.lock" % cfg), "w") as lk:
         fcntl.flock(lk, fcntl.LOCK_EX)
@@ -149,10 +153,10 @@ def ensure(cfg="default"):
         with open(os.path.join(d, ".complete"), "w") as fh:
             fh.write("%.1f\n" % (time.time() - t0))
         log("extracted in %.1fs -> %s" % (time.time() - t0, d))
-        # prune old fact dirs of this cfg (keep 4 most recent)
+        # prune old fact dirs of this cfg (keep the 10 most recently used)
         base = os.path.join(CACHE, "facts")
         olds = sorted((e for e in os.listdir(base) if e.startswith(cfg + "-")),
                       key=lambda e: os.path.getmtime(os.path.join(base, e)))
-        for e in olds[:-4]:
+        for e in olds[:-10]:
             shutil.rmtree(os.path.join(base, e), ignore_errors=True)
     return d
